@@ -70,6 +70,8 @@ def apply_call(target, entry, name, v):
         elif entry == 'property':
             if name == 'Content-Type':
                 target.content_type = v
+            elif name == 'Expires':
+                target.expires = v
             else:
                 target.content_length = v
         return 'ok'
@@ -138,8 +140,12 @@ def run(chk):
             entry = rng.choice(['setitem', 'append', 'setdefault', 'property'] + (['ctor', 'ctor'] if mode == 'httpresponse' else []))
             name = rng.choice(NAMES)
             if entry == 'property':
-                name = rng.choice(['Content-Type', 'Content-Length'])
+                name = rng.choice(['Content-Type', 'Content-Length', 'Expires'])
             v = rand_value(rng)
+            if entry == 'property' and name == 'Expires':
+                # the attribute formats dates and numbers (http_date); text is stored as given -- and must pass the same guard
+                while not isinstance(v, str):
+                    v = rand_value(rng)
             if entry == 'setdefault' and isinstance(v, list):
                 continue          # a list argument to setdefault is not a single-value setter
             if calls and rng.random() < 0.25 and entry in ('append', 'ctor'):
